@@ -106,6 +106,9 @@ def run(ck, only=None):
     if ck.tier != "thorough":
         oa = [c for c in oa if len(c.atoms) <= 2 or (c.atoms[1] in gen_c.OVERALIGNED_ARRAY_ATOMS and c.atoms[0] in ("char", "int") and c.atoms[2] in ("char", "int"))]
     oa = [c for c in oa if set(c.atoms) & set(gen_c.OVERALIGNED_ARRAY_ATOMS)]
+    # pointers to functions whose calling convention is (un)supported: alone and between small members
+    fa = gen_c.enumerate_records(3, atoms=["char", "int"] + gen_c.FNPTR_ABI_ATOMS, rattrs=["plain", "packed"])
+    oa += [c for c in fa if set(c.atoms) & set(gen_c.FNPTR_ABI_ATOMS) and (len(c.atoms) <= 2 or (c.atoms[1] in gen_c.FNPTR_ABI_ATOMS and c.atoms[0] == "char" and c.atoms[2] == "int"))]
     for i, c in enumerate(oa):
         c.tag = f"K{len(cases) + i + 1}"
     cases = cases + oa
@@ -121,7 +124,7 @@ def run(ck, only=None):
         # quick: all 1-member records, and the 2-member records of a VERIF_SEED-rotated third of the first-member atoms
         keys = [a.key for a in gen_c.ATOMS]
         pick = {k for i, k in enumerate(keys) if (i + ck.seed) % 6 == 0}
-        cases = [c for c in cases if len(c.atoms) == 1 or c.atoms[0] in pick or (set(c.atoms) & set(gen_c.OVERALIGNED_ARRAY_ATOMS))]
+        cases = [c for c in cases if len(c.atoms) == 1 or c.atoms[0] in pick or (set(c.atoms) & set(gen_c.OVERALIGNED_ARRAY_ATOMS + gen_c.FNPTR_ABI_ATOMS))]
         ck.cap("quick tier: 2-member records whose first member is in a rotated sixth of the atom alphabet; thorough: all, plus 3-member "
                "records over a 13-atom sub-alphabet")
     if only:
